@@ -329,6 +329,11 @@ func norm(v ssa.Value, depth int, seen map[ssa.Value]bool) string {
 		}
 		return "new:" + x.Name()
 	case *ssa.FieldAddr:
+		if a, ok := x.X.(*ssa.Alloc); ok {
+			if val, ok := CellValue(a); ok {
+				return "&" + norm(val, d, seen) + "." + fieldName(x.X.Type(), x.Field)
+			}
+		}
 		return "&" + norm(x.X, d, seen) + "." + fieldName(x.X.Type(), x.Field)
 	case *ssa.Field:
 		return norm(x.X, d, seen) + "." + fieldName(x.X.Type(), x.Field)
@@ -373,16 +378,7 @@ func norm(v ssa.Value, depth int, seen map[ssa.Value]bool) string {
 	case *ssa.TypeAssert:
 		return norm(x.X, d, seen) + ".(" + tname(x.AssertedType) + ")"
 	case *ssa.Phi:
-		if seen[x] {
-			return "φ" + x.Name()
-		}
-		seen[x] = true
-		var parts []string
-		for _, e := range x.Edges {
-			parts = append(parts, norm(e, d, seen))
-		}
-		delete(seen, x)
-		return "φ" + x.Name() + "{" + strings.Join(parts, "|") + "}"
+		return "φ" + x.Name()
 	case *ssa.MakeClosure:
 		return "closure:" + ShortName(x.Fn.(*ssa.Function))
 	case *ssa.MakeMap:
